@@ -271,6 +271,11 @@ def rule_shapes(ck, u, so, inv, head, tail, ds):
         else:
             if strip(t2) != nxt(T):
                 bad = "get sets tail' = %s, expected (tail + 1) %% datasize" % fmt(t2)
+            # the path must have excluded that the advanced tail meets head (then the ring is empty and needs the empty
+            # encoding) - a capacity of 1 makes it meet head even when the ring was full before the step
+            elif eng.feasible(p.cond_terms() + [('cmp', '==', nxt(T), H)], inv):
+                bad = bad or ('get advances tail to (tail + 1) %% datasize under {%s} without having excluded that it meets head there: the ring is then empty but '
+                              'keeps looking full (with capacity 1 the advanced tail always meets head)' % '; '.join(fmt(c) for c in cs)[:200])
     if kinds != {'empty', 'take'}:
         bad = bad or 'get arms found: %s' % sorted(kinds)
     ck.verdict(bad is None, 'C19.d', 'octet_ring_get', cast.where(u.fn('octet_ring_get')),
